@@ -348,7 +348,7 @@ func ruleErrChk(c *Ctx, r *RuleResult, fnName, sinkParam string) {
 					r.inst("%s: forwarding wrapper %s around %s", fnName, typeShort(stT), sinkParam)
 					r.oblig(okF)
 					if !okF {
-						r.find(fnName+":"+typeShort(stT)+".Write drops the write error", c.instrPos(st), "%s writes through %s, whose Write %s: a failed write of the underlying writer is reported to %s as success", fnName, typeShort(stT), whyF, fnName)
+						r.find(fnName+":"+typeShort(stT)+".Write is not a faithful forwarder", c.instrPos(st), "%s writes through %s, whose Write %s: what reaches the underlying writer, or what %s is told about it, is not what a direct write would give", fnName, typeShort(stT), whyF, fnName)
 					}
 					forwarders[al] = true
 					continue
@@ -654,7 +654,7 @@ func init() {
 		},
 		controls: func(ctl *Ctx) []*RuleResult {
 			var out []*RuleResult
-			for _, f := range []string{"errctl.BadFlushDropped", "errctl.BadErrSwallowed", "errctl.BadCheckedLate", "errctl.BadDeferredFlush", "errctl.BadNeverFlushed", "errctl.BadStickyWriter", "errctl.BadStickyIgnored", "errctl.BadSingleCellLine", "errctl.BadSingleCellFirstRow", "errctl.BadForwarder"} {
+			for _, f := range []string{"errctl.BadFlushDropped", "errctl.BadErrSwallowed", "errctl.BadCheckedLate", "errctl.BadDeferredFlush", "errctl.BadNeverFlushed", "errctl.BadStickyWriter", "errctl.BadStickyIgnored", "errctl.BadSingleCellLine", "errctl.BadSingleCellFirstRow", "errctl.BadForwarder", "errctl.BadRetryForwarder"} {
 				e := &RuleResult{Rule: "ERRCHK"}
 				ruleErrChk(ctl, e, f, "w")
 				out = append(out, e)
@@ -871,6 +871,15 @@ func analyseForwarder(c *Ctx, ptrT types.Type, wfield string) (ok bool, why stri
 	}
 	if len(inner) != 1 {
 		return false, "", false
+	}
+	// a retry loop around the underlying Write that passes the same bytes again: whatever the failed
+	// attempt did write (its count is n > 0 for a partial write) is sent a second time
+	for _, body := range loopsOf(wr) {
+		if body[inner[0].Block()] && len(inner[0].Call.Args) == 1 {
+			if _, isParam := inner[0].Call.Args[0].(*ssa.Parameter); isParam {
+				return false, "calls the underlying Write again with the same bytes after a failed attempt (the part that attempt did write is sent twice; a retry must continue from p[n:])", true
+			}
+		}
 	}
 	var E ssa.Value
 	if refs := inner[0].Referrers(); refs != nil {
